@@ -2,6 +2,7 @@ package props
 
 import (
 	"fmt"
+	"slices"
 	"sync"
 
 	"github.com/AdguardTeam/urlfilter"
@@ -204,7 +205,7 @@ func init() {
 		Level: "exploration",
 		Rule: fmt.Sprintf("pool = every combination of the features the comparison reads (exception x important x 6 $domain shapes (incl. wildcard-TLD only) x 5 content-type shapes x third-party x match-case x $dnstype x $ctag x $client x $denyallow, plus rules carrying 10..16 modifiers (all content types and more), = %d rules); "+
 			"exhaustive over the pool: irreflexivity, asymmetry and agreement with class order / specific-over-generic for all ordered pairs, the winner of both selection functions on every ordered pair, add-one-modifier => strictly higher for every rule; "+
-			"transitivity of > and of incomparability on all triples of PRNG-drawn 90-rule subsets; selection maximality for candidate lists of 2..5 rules in all permutations (one in thirty: 13..60 rules in 24 PRNG-drawn orders) through NewMatchingResult and GetDNSBasicRule, and through NetworkEngine.Match / Engine.MatchRequest / DNSEngine.MatchRequest with the candidates spread over the three lookup tables; "+
+			"transitivity of > and of incomparability on all triples of PRNG-drawn 90-rule subsets; selection maximality for candidate lists of 2..5 rules in all permutations (one in thirty: 13..60 rules in 24 PRNG-drawn orders) through NewMatchingResult (also with a referrer-level $genericblock / $urlblock exception, winner maximal among the eligible candidates) and GetDNSBasicRule, and through NetworkEngine.Match / Engine.MatchRequest / DNSEngine.MatchRequest with the candidates spread over the three lookup tables; "+
 			"non-trivial = pool rule compared against the whole pool (its ordered pairs are counted in events.ordered_pairs), triple subset, or candidate list; distinct by the rule texts involved", len(c07Pool)),
 		Assumptions: []string{
 			"'exhaustive' is relative to the pool; document-level options are excluded from add-a-modifier because they replace the content-type set",
@@ -355,6 +356,42 @@ func init() {
 						winners = append(winners, w)
 					}
 				})
+				// With a referrer-level exception some blocking candidates are not
+				// eligible ($genericblock: those without a permitted domain,
+				// $urlblock: all of them); the winner is maximal among the
+				// eligible ones, whatever the ineligible ones are.
+				for kind, srcRule := range c07SourceRules() {
+					var eligible []*rules.NetworkRule
+					for _, cd := range cand {
+						if cd.Rule.Whitelist || (kind == "genericblock" && cd.Spec_) {
+							eligible = append(eligible, cd.Rule)
+						}
+					}
+					for trial := 0; trial < 3; trial++ {
+						rs := make([]*rules.NetworkRule, k)
+						for i, pi := range c.Rng.Perm(k) {
+							rs[i] = cand[pi].Rule
+						}
+						w := rules.NewMatchingResult(append([]*rules.NetworkRule(nil), rs...), []*rules.NetworkRule{srcRule}).BasicRule
+						c.Eval(1)
+						via := "NewMatchingResult(referrer $" + kind + ")"
+						switch {
+						case w == nil && len(eligible) > 0:
+							c.Violation("no-winner", nil, map[string]any{"order": util.Texts(rs), "via": via}, "%s selected nothing from %v although %d candidates are eligible", via, util.Texts(rs), len(eligible))
+						case w != nil && !slices.Contains(eligible, w):
+							c.Violation("ineligible-winner", nil, map[string]any{"order": util.Texts(rs), "winner": w.RuleText, "via": via}, "%s over %v selected %q, which the referrer exception disables", via, util.Texts(rs), w.RuleText)
+						case w != nil:
+							for _, o := range eligible {
+								if o.IsHigherPriority(w) {
+									c.Violation("winner-outranked", nil, map[string]any{"order": util.Texts(rs), "winner": w.RuleText, "outranked_by": o.RuleText, "via": via},
+										"%s over %v selected %q although the eligible %q outranks it", via, util.Texts(rs), w.RuleText, o.RuleText)
+
+									break
+								}
+							}
+						}
+					}
+				}
 				for _, w := range winners[1:] {
 					if w.IsHigherPriority(winners[0]) || winners[0].IsHigherPriority(w) {
 						c.Violation("winner-depends-on-order", nil, texts, "different orders of %v select %q and %q, which are not tied", texts, winners[0].RuleText, w.RuleText)
@@ -367,6 +404,24 @@ func init() {
 			}
 		},
 	})
+}
+
+var c07SrcRules map[string]*rules.NetworkRule
+
+// c07SourceRules returns the referrer-level exceptions by kind.
+func c07SourceRules() map[string]*rules.NetworkRule {
+	if c07SrcRules == nil {
+		c07SrcRules = map[string]*rules.NetworkRule{}
+		for _, k := range []string{"genericblock", "urlblock"} {
+			r, err := rules.NewNetworkRule("@@||d.com^$"+k, 1)
+			if err != nil {
+				panic(err)
+			}
+			c07SrcRules[k] = r
+		}
+	}
+
+	return c07SrcRules
 }
 
 // permute calls f with every permutation of 0..n-1.
